@@ -154,6 +154,24 @@ theories/Proofs/Client.vos theories/Proofs/Client.vok theories/Proofs/Client.req
 theories/Proofs/CompilerCache.vo theories/Proofs/CompilerCache.glob theories/Proofs/CompilerCache.v.beautified theories/Proofs/CompilerCache.required_vo: theories/Proofs/CompilerCache.v theories/Model/CompilerCache.vo
 theories/Proofs/CompilerCache.vio: theories/Proofs/CompilerCache.v theories/Model/CompilerCache.vio
 theories/Proofs/CompilerCache.vos theories/Proofs/CompilerCache.vok theories/Proofs/CompilerCache.required_vos: theories/Proofs/CompilerCache.v theories/Model/CompilerCache.vos
+theories/Proofs/ComposeC03.vo theories/Proofs/ComposeC03.glob theories/Proofs/ComposeC03.v.beautified theories/Proofs/ComposeC03.required_vo: theories/Proofs/ComposeC03.v theories/Base/Sx.vo theories/Model/Lru.vo theories/Model/HitModel.vo theories/Proofs/Lru.vo theories/Proofs/HitModel.vo theories/Model/KeyEnc.vo theories/Proofs/KeyEnc.vo theories/Proofs/KeyEncSpec.vo theories/Gen/C02HashSpec.vo theories/Gen/C02HashSpec_ok.vo theories/Properties/C02.vo
+theories/Proofs/ComposeC03.vio: theories/Proofs/ComposeC03.v theories/Base/Sx.vio theories/Model/Lru.vio theories/Model/HitModel.vio theories/Proofs/Lru.vio theories/Proofs/HitModel.vio theories/Model/KeyEnc.vio theories/Proofs/KeyEnc.vio theories/Proofs/KeyEncSpec.vio theories/Gen/C02HashSpec.vio theories/Gen/C02HashSpec_ok.vio theories/Properties/C02.vio
+theories/Proofs/ComposeC03.vos theories/Proofs/ComposeC03.vok theories/Proofs/ComposeC03.required_vos: theories/Proofs/ComposeC03.v theories/Base/Sx.vos theories/Model/Lru.vos theories/Model/HitModel.vos theories/Proofs/Lru.vos theories/Proofs/HitModel.vos theories/Model/KeyEnc.vos theories/Proofs/KeyEnc.vos theories/Proofs/KeyEncSpec.vos theories/Gen/C02HashSpec.vos theories/Gen/C02HashSpec_ok.vos theories/Properties/C02.vos
+theories/Proofs/ComposeC04.vo theories/Proofs/ComposeC04.glob theories/Proofs/ComposeC04.v.beautified theories/Proofs/ComposeC04.required_vo: theories/Proofs/ComposeC04.v theories/Base/Sx.vo theories/Gen/C04Consts.vo theories/Model/PpPaths.vo theories/Model/TimeMacro.vo theories/Model/PpCache.vo theories/Proofs/TimeMacro.vo theories/Proofs/PpCache.vo theories/Proofs/ComposePpLocal.vo theories/Model/KeyEnc.vo theories/Proofs/KeyEnc.vo theories/Proofs/KeyEncSpec.vo theories/Gen/C02HashSpec.vo theories/Gen/C02HashSpec_ok.vo theories/Properties/C02.vo
+theories/Proofs/ComposeC04.vio: theories/Proofs/ComposeC04.v theories/Base/Sx.vio theories/Gen/C04Consts.vio theories/Model/PpPaths.vio theories/Model/TimeMacro.vio theories/Model/PpCache.vio theories/Proofs/TimeMacro.vio theories/Proofs/PpCache.vio theories/Proofs/ComposePpLocal.vio theories/Model/KeyEnc.vio theories/Proofs/KeyEnc.vio theories/Proofs/KeyEncSpec.vio theories/Gen/C02HashSpec.vio theories/Gen/C02HashSpec_ok.vio theories/Properties/C02.vio
+theories/Proofs/ComposeC04.vos theories/Proofs/ComposeC04.vok theories/Proofs/ComposeC04.required_vos: theories/Proofs/ComposeC04.v theories/Base/Sx.vos theories/Gen/C04Consts.vos theories/Model/PpPaths.vos theories/Model/TimeMacro.vos theories/Model/PpCache.vos theories/Proofs/TimeMacro.vos theories/Proofs/PpCache.vos theories/Proofs/ComposePpLocal.vos theories/Model/KeyEnc.vos theories/Proofs/KeyEnc.vos theories/Proofs/KeyEncSpec.vos theories/Gen/C02HashSpec.vos theories/Gen/C02HashSpec_ok.vos theories/Properties/C02.vos
+theories/Proofs/ComposeC09.vo theories/Proofs/ComposeC09.glob theories/Proofs/ComposeC09.v.beautified theories/Proofs/ComposeC09.required_vo: theories/Proofs/ComposeC09.v theories/Base/Sx.vo theories/Model/Stats.vo theories/Model/ReqSM.vo theories/Proofs/ReqSM.vo theories/Model/KeyEnc.vo theories/Proofs/KeyEnc.vo theories/Proofs/KeyEncSpec.vo theories/Gen/C02HashSpec.vo theories/Gen/C02HashSpec_ok.vo theories/Properties/C02.vo
+theories/Proofs/ComposeC09.vio: theories/Proofs/ComposeC09.v theories/Base/Sx.vio theories/Model/Stats.vio theories/Model/ReqSM.vio theories/Proofs/ReqSM.vio theories/Model/KeyEnc.vio theories/Proofs/KeyEnc.vio theories/Proofs/KeyEncSpec.vio theories/Gen/C02HashSpec.vio theories/Gen/C02HashSpec_ok.vio theories/Properties/C02.vio
+theories/Proofs/ComposeC09.vos theories/Proofs/ComposeC09.vok theories/Proofs/ComposeC09.required_vos: theories/Proofs/ComposeC09.v theories/Base/Sx.vos theories/Model/Stats.vos theories/Model/ReqSM.vos theories/Proofs/ReqSM.vos theories/Model/KeyEnc.vos theories/Proofs/KeyEnc.vos theories/Proofs/KeyEncSpec.vos theories/Gen/C02HashSpec.vos theories/Gen/C02HashSpec_ok.vos theories/Properties/C02.vos
+theories/Proofs/ComposeEx.vo theories/Proofs/ComposeEx.glob theories/Proofs/ComposeEx.v.beautified theories/Proofs/ComposeEx.required_vo: theories/Proofs/ComposeEx.v theories/Base/Sx.vo theories/Gen/C04Consts.vo theories/Model/PpPaths.vo theories/Model/TimeMacro.vo theories/Model/PpCache.vo theories/Proofs/TimeMacro.vo theories/Proofs/PpCache.vo theories/Proofs/ComposePpLocal.vo theories/Model/KeyEnc.vo theories/Proofs/KeyEnc.vo theories/Proofs/KeyEncSpec.vo theories/Gen/C02HashSpec.vo theories/Gen/C02HashSpec_ok.vo theories/Proofs/ComposeC04.vo theories/Model/Stats.vo theories/Model/ReqSM.vo theories/Proofs/ReqSM.vo theories/Proofs/ComposeC09.vo theories/Model/Lru.vo theories/Model/HitModel.vo theories/Proofs/HitModel.vo theories/Proofs/ComposeC03.vo theories/Model/DiskCache.vo theories/Proofs/DiskCache.vo
+theories/Proofs/ComposeEx.vio: theories/Proofs/ComposeEx.v theories/Base/Sx.vio theories/Gen/C04Consts.vio theories/Model/PpPaths.vio theories/Model/TimeMacro.vio theories/Model/PpCache.vio theories/Proofs/TimeMacro.vio theories/Proofs/PpCache.vio theories/Proofs/ComposePpLocal.vio theories/Model/KeyEnc.vio theories/Proofs/KeyEnc.vio theories/Proofs/KeyEncSpec.vio theories/Gen/C02HashSpec.vio theories/Gen/C02HashSpec_ok.vio theories/Proofs/ComposeC04.vio theories/Model/Stats.vio theories/Model/ReqSM.vio theories/Proofs/ReqSM.vio theories/Proofs/ComposeC09.vio theories/Model/Lru.vio theories/Model/HitModel.vio theories/Proofs/HitModel.vio theories/Proofs/ComposeC03.vio theories/Model/DiskCache.vio theories/Proofs/DiskCache.vio
+theories/Proofs/ComposeEx.vos theories/Proofs/ComposeEx.vok theories/Proofs/ComposeEx.required_vos: theories/Proofs/ComposeEx.v theories/Base/Sx.vos theories/Gen/C04Consts.vos theories/Model/PpPaths.vos theories/Model/TimeMacro.vos theories/Model/PpCache.vos theories/Proofs/TimeMacro.vos theories/Proofs/PpCache.vos theories/Proofs/ComposePpLocal.vos theories/Model/KeyEnc.vos theories/Proofs/KeyEnc.vos theories/Proofs/KeyEncSpec.vos theories/Gen/C02HashSpec.vos theories/Gen/C02HashSpec_ok.vos theories/Proofs/ComposeC04.vos theories/Model/Stats.vos theories/Model/ReqSM.vos theories/Proofs/ReqSM.vos theories/Proofs/ComposeC09.vos theories/Model/Lru.vos theories/Model/HitModel.vos theories/Proofs/HitModel.vos theories/Proofs/ComposeC03.vos theories/Model/DiskCache.vos theories/Proofs/DiskCache.vos
+theories/Proofs/ComposePpLocal.vo theories/Proofs/ComposePpLocal.glob theories/Proofs/ComposePpLocal.v.beautified theories/Proofs/ComposePpLocal.required_vo: theories/Proofs/ComposePpLocal.v theories/Base/Sx.vo theories/Gen/C04Consts.vo theories/Model/PpPaths.vo theories/Model/TimeMacro.vo theories/Model/PpCache.vo theories/Proofs/TimeMacro.vo theories/Proofs/PpCache.vo
+theories/Proofs/ComposePpLocal.vio: theories/Proofs/ComposePpLocal.v theories/Base/Sx.vio theories/Gen/C04Consts.vio theories/Model/PpPaths.vio theories/Model/TimeMacro.vio theories/Model/PpCache.vio theories/Proofs/TimeMacro.vio theories/Proofs/PpCache.vio
+theories/Proofs/ComposePpLocal.vos theories/Proofs/ComposePpLocal.vok theories/Proofs/ComposePpLocal.required_vos: theories/Proofs/ComposePpLocal.v theories/Base/Sx.vos theories/Gen/C04Consts.vos theories/Model/PpPaths.vos theories/Model/TimeMacro.vos theories/Model/PpCache.vos theories/Proofs/TimeMacro.vos theories/Proofs/PpCache.vos
+theories/Proofs/ComposeStore.vo theories/Proofs/ComposeStore.glob theories/Proofs/ComposeStore.v.beautified theories/Proofs/ComposeStore.required_vo: theories/Proofs/ComposeStore.v theories/Base/Sx.vo theories/Model/Lru.vo theories/Model/DiskCache.vo theories/Proofs/DiskCache.vo theories/Proofs/Lru.vo
+theories/Proofs/ComposeStore.vio: theories/Proofs/ComposeStore.v theories/Base/Sx.vio theories/Model/Lru.vio theories/Model/DiskCache.vio theories/Proofs/DiskCache.vio theories/Proofs/Lru.vio
+theories/Proofs/ComposeStore.vos theories/Proofs/ComposeStore.vok theories/Proofs/ComposeStore.required_vos: theories/Proofs/ComposeStore.v theories/Base/Sx.vos theories/Model/Lru.vos theories/Model/DiskCache.vos theories/Proofs/DiskCache.vos theories/Proofs/Lru.vos
 theories/Proofs/Crc32.vo theories/Proofs/Crc32.glob theories/Proofs/Crc32.v.beautified theories/Proofs/Crc32.required_vo: theories/Proofs/Crc32.v theories/Model/Crc32.vo
 theories/Proofs/Crc32.vio: theories/Proofs/Crc32.v theories/Model/Crc32.vio
 theories/Proofs/Crc32.vos theories/Proofs/Crc32.vok theories/Proofs/Crc32.required_vos: theories/Proofs/Crc32.v theories/Model/Crc32.vos
@@ -310,6 +328,9 @@ theories/Properties/C19.vos theories/Properties/C19.vok theories/Properties/C19.
 theories/Properties/C20.vo theories/Properties/C20.glob theories/Properties/C20.v.beautified theories/Properties/C20.required_vo: theories/Properties/C20.v theories/Model/Startup.vo theories/Model/ServerLife.vo theories/Proofs/Startup.vo theories/Proofs/ServerLife.vo
 theories/Properties/C20.vio: theories/Properties/C20.v theories/Model/Startup.vio theories/Model/ServerLife.vio theories/Proofs/Startup.vio theories/Proofs/ServerLife.vio
 theories/Properties/C20.vos theories/Properties/C20.vok theories/Properties/C20.required_vos: theories/Properties/C20.v theories/Model/Startup.vos theories/Model/ServerLife.vos theories/Proofs/Startup.vos theories/Proofs/ServerLife.vos
+theories/Properties/Composition.vo theories/Properties/Composition.glob theories/Properties/Composition.v.beautified theories/Properties/Composition.required_vo: theories/Properties/Composition.v theories/Base/Sx.vo theories/Gen/C04Consts.vo theories/Model/PpPaths.vo theories/Model/TimeMacro.vo theories/Model/PpCache.vo theories/Proofs/TimeMacro.vo theories/Proofs/PpCache.vo theories/Model/KeyEnc.vo theories/Proofs/KeyEnc.vo theories/Gen/C02HashSpec.vo theories/Model/Stats.vo theories/Model/ReqSM.vo theories/Proofs/ReqSM.vo theories/Model/Lru.vo theories/Model/HitModel.vo theories/Proofs/HitModel.vo theories/Model/DiskCache.vo theories/Proofs/DiskCache.vo theories/Proofs/Lru.vo theories/Proofs/ComposePpLocal.vo theories/Proofs/ComposeC04.vo theories/Proofs/ComposeC09.vo theories/Proofs/ComposeC03.vo theories/Proofs/ComposeStore.vo theories/Proofs/ComposeEx.vo
+theories/Properties/Composition.vio: theories/Properties/Composition.v theories/Base/Sx.vio theories/Gen/C04Consts.vio theories/Model/PpPaths.vio theories/Model/TimeMacro.vio theories/Model/PpCache.vio theories/Proofs/TimeMacro.vio theories/Proofs/PpCache.vio theories/Model/KeyEnc.vio theories/Proofs/KeyEnc.vio theories/Gen/C02HashSpec.vio theories/Model/Stats.vio theories/Model/ReqSM.vio theories/Proofs/ReqSM.vio theories/Model/Lru.vio theories/Model/HitModel.vio theories/Proofs/HitModel.vio theories/Model/DiskCache.vio theories/Proofs/DiskCache.vio theories/Proofs/Lru.vio theories/Proofs/ComposePpLocal.vio theories/Proofs/ComposeC04.vio theories/Proofs/ComposeC09.vio theories/Proofs/ComposeC03.vio theories/Proofs/ComposeStore.vio theories/Proofs/ComposeEx.vio
+theories/Properties/Composition.vos theories/Properties/Composition.vok theories/Properties/Composition.required_vos: theories/Properties/Composition.v theories/Base/Sx.vos theories/Gen/C04Consts.vos theories/Model/PpPaths.vos theories/Model/TimeMacro.vos theories/Model/PpCache.vos theories/Proofs/TimeMacro.vos theories/Proofs/PpCache.vos theories/Model/KeyEnc.vos theories/Proofs/KeyEnc.vos theories/Gen/C02HashSpec.vos theories/Model/Stats.vos theories/Model/ReqSM.vos theories/Proofs/ReqSM.vos theories/Model/Lru.vos theories/Model/HitModel.vos theories/Proofs/HitModel.vos theories/Model/DiskCache.vos theories/Proofs/DiskCache.vos theories/Proofs/Lru.vos theories/Proofs/ComposePpLocal.vos theories/Proofs/ComposeC04.vos theories/Proofs/ComposeC09.vos theories/Proofs/ComposeC03.vos theories/Proofs/ComposeStore.vos theories/Proofs/ComposeEx.vos
 theories/Run/C01.vo theories/Run/C01.glob theories/Run/C01.v.beautified theories/Run/C01.required_vo: theories/Run/C01.v theories/Base/Sx.vo theories/Model/ArgTypes.vo theories/Model/Args.vo theories/Gen/C01ArgTables.vo theories/Model/ArgsInst.vo
 theories/Run/C01.vio: theories/Run/C01.v theories/Base/Sx.vio theories/Model/ArgTypes.vio theories/Model/Args.vio theories/Gen/C01ArgTables.vio theories/Model/ArgsInst.vio
 theories/Run/C01.vos theories/Run/C01.vok theories/Run/C01.required_vos: theories/Run/C01.v theories/Base/Sx.vos theories/Model/ArgTypes.vos theories/Model/Args.vos theories/Gen/C01ArgTables.vos theories/Model/ArgsInst.vos
